@@ -198,13 +198,16 @@ func ProcessPrivateComponentLinkages(s *tree.Statement, complex bool) {
 	}
 	Println("Private node linkages to remove from main tree:", identifiedLinkages)
 
+	// Copy potentially inherited component names into the target nodes directly, before any node is removed
+	// (removal reorganizes the tree, so that nodes processed later could no longer resolve the inherited name)
+	for _, pair := range identifiedLinkages {
+		pair.Tgt.ComponentType = pair.Tgt.GetComponentName()
+	}
+
 	// Post process linkages for removal of private nodes from property tree, and potential removal of source node if empty
 	for _, pair := range identifiedLinkages {
 
 		Println("-> Processing removal of identified private node from statement tree structure. Node: " + pair.Tgt.String())
-
-		// Copy potentially inherited component name into target node directly (which will be lost after node removal)
-		pair.Tgt.ComponentType = pair.Tgt.GetComponentName()
 
 		// Remove private node from original tree structure
 		rt, err := tree.RemoveNodeFromTree(pair.Tgt)
